@@ -149,7 +149,7 @@ impl<W, R, T> Runtime<W, R, T> {
                     ok: usize::from(stat.size).saturating_add(size) <= size_limit,
                     site: std::panic::Location::caller(),
                 });
-                if usize::from(stat.size) + size > size_limit {
+                if usize::from(stat.size).saturating_add(size) > size_limit {
                     return Err(RuntimeViolation::AllocationLimitReached);
                 }
             } else {
